@@ -79,7 +79,7 @@ def apply_contract(eng, st, con, pos, kw, constructing=None):
             else:
                 s2, result = make_result(eng, s2, con, Env(a, st, s2, eng=eng), case)
             ens = case.ensures(Env(a, st, s2, res=result, eng=eng))
-            if z3.is_false(ens):
+            if z3.is_false(ens) or z3.is_false(z3.simplify(ens)):
                 # the post-condition cannot even be stated for the result the contract builds at a call site (typically a missing
                 # `result=` builder): dropping the normal outcome silently would make the caller's proof vacuous
                 raise Unsupported(f"contract {con.key} case {case.name}: post-condition is literally False at this call site "
